@@ -84,3 +84,21 @@ Definition ex_call : call :=
      c_envcfg := None;
      c_envvars := [(k_k, VTok 3)];
      c_entry := EArgs [AAsg (k_l, Append (VTok 9)); AAsg (k_k, Set_ (VTok 7)); AAsg (k_l, Append (VTok 5))] |}.
+
+(* ---- a call with a subcommand (Model/C04Sub.v): parent key k, subcommand "f" with scalar x and list l;
+   environment variable for f.x, two parent-level --cfg items (the first sets f.x, the second another key of
+   the subcommand), an append after the token *)
+From JV Require Import Model.C04Sub.
+Definition k_x : tpath := [([120%N], false)].
+Definition n_f : name := ([102%N], false).
+Definition ex_scall : scall :=
+  {| s_parent :=
+       {| c_parser := [{| d_key := k_k; d_kind := KScalar; d_default := VTok 1 |}];
+          c_default_env := true; c_os_default_env := None; c_env_arg := None;
+          c_patterns := []; c_envcfg := None; c_envvars := [];
+          c_entry := EArgs [ACfg [(n_f :: k_x, Set_ (VTok 5))]; ACfg [(n_f :: k_l, Set_ (VList [6]%Z)); (k_k, Set_ (VTok 2))]] |};
+     s_name := n_f;
+     s_sub := [{| d_key := k_x; d_kind := KScalar; d_default := VTok 0 |};
+               {| d_key := k_l; d_kind := KList; d_default := VList [4]%Z |}];
+     s_subenv := [(k_x, VTok 3)];
+     s_subargv := [AAsg (k_l, Append (VTok 9))] |}.
